@@ -88,43 +88,53 @@ private:
         // Calculate inv(A - r * I) * vj
         Vector v_real(m_n), v_imag(m_n), OPv_real(m_n), OPv_imag(m_n);
         const Scalar eps = TypeTraits<Scalar>::epsilon();
-        for (Index i = 0; i < m_nev; i++)
+        // If a probing solve throws (the operator belongs to the user and may fail), the shift given at
+        // construction must be re-installed before the exception leaves: init() does not set it again
+        try
         {
-            v_real.noalias() = m_fac.matrix_V() * m_ritz_vec.col(i).real();
-            v_imag.noalias() = m_fac.matrix_V() * m_ritz_vec.col(i).imag();
-            m_op.perform_op(v_real.data(), OPv_real.data());
-            m_op.perform_op(v_imag.data(), OPv_imag.data());
-
-            // Two roots computed from the quadratic equation
-            const Complex nu = m_ritz_val[i];
-            const Complex root_part1 = m_sigmar + Scalar(0.5) / nu;
-            const Complex root_part2 = Scalar(0.5) * sqrt(Scalar(1) - Scalar(4) * m_sigmai * m_sigmai * (nu * nu)) / nu;
-            const Complex root1 = root_part1 + root_part2;
-            const Complex root2 = root_part1 - root_part2;
-
-            // Test roots
-            Scalar err1 = Scalar(0), err2 = Scalar(0);
-            for (int k = 0; k < m_n; k++)
+            for (Index i = 0; i < m_nev; i++)
             {
-                const Complex rhs1 = Complex(v_real[k], v_imag[k]) / (root1 - shift);
-                const Complex rhs2 = Complex(v_real[k], v_imag[k]) / (root2 - shift);
-                const Complex OPv = Complex(OPv_real[k], OPv_imag[k]);
-                err1 += norm(OPv - rhs1);
-                err2 += norm(OPv - rhs2);
-            }
+                v_real.noalias() = m_fac.matrix_V() * m_ritz_vec.col(i).real();
+                v_imag.noalias() = m_fac.matrix_V() * m_ritz_vec.col(i).imag();
+                m_op.perform_op(v_real.data(), OPv_real.data());
+                m_op.perform_op(v_imag.data(), OPv_imag.data());
 
-            const Complex lambdaj = (err1 < err2) ? root1 : root2;
-            m_ritz_val[i] = lambdaj;
+                // Two roots computed from the quadratic equation
+                const Complex nu = m_ritz_val[i];
+                const Complex root_part1 = m_sigmar + Scalar(0.5) / nu;
+                const Complex root_part2 = Scalar(0.5) * sqrt(Scalar(1) - Scalar(4) * m_sigmai * m_sigmai * (nu * nu)) / nu;
+                const Complex root1 = root_part1 + root_part2;
+                const Complex root2 = root_part1 - root_part2;
 
-            if (abs(Eigen::numext::imag(lambdaj)) > eps)
-            {
-                m_ritz_val[i + 1] = Eigen::numext::conj(lambdaj);
-                i++;
+                // Test roots
+                Scalar err1 = Scalar(0), err2 = Scalar(0);
+                for (int k = 0; k < m_n; k++)
+                {
+                    const Complex rhs1 = Complex(v_real[k], v_imag[k]) / (root1 - shift);
+                    const Complex rhs2 = Complex(v_real[k], v_imag[k]) / (root2 - shift);
+                    const Complex OPv = Complex(OPv_real[k], OPv_imag[k]);
+                    err1 += norm(OPv - rhs1);
+                    err2 += norm(OPv - rhs2);
+                }
+
+                const Complex lambdaj = (err1 < err2) ? root1 : root2;
+                m_ritz_val[i] = lambdaj;
+
+                if (abs(Eigen::numext::imag(lambdaj)) > eps)
+                {
+                    m_ritz_val[i + 1] = Eigen::numext::conj(lambdaj);
+                    i++;
+                }
+                else
+                {
+                    m_ritz_val[i] = Complex(Eigen::numext::real(lambdaj), Scalar(0));
+                }
             }
-            else
-            {
-                m_ritz_val[i] = Complex(Eigen::numext::real(lambdaj), Scalar(0));
-            }
+        }
+        catch (...)
+        {
+            m_op.set_shift(m_sigmar, m_sigmai);
+            throw;
         }
 
         // Restore the shift given at construction: the operator object belongs to the user and is
